@@ -5,6 +5,12 @@ ROOT = os.path.dirname(os.path.dirname(os.path.abspath(__file__)))
 props = [json.loads(l) for l in open(os.path.join(ROOT, 'properties.jsonl'))]
 MC, EX = 'model_checking', 'exploration'
 C = {
+ 'C01': (MC, 'exhaustive search over grammar-accepted token sequences and bounded syntax trees against an independent ladder parser',
+   '(a) Every token sequence the amended grammar (Earley over grammer.txt) accepts, up to length bounds over three token alphabets, is parsed by the real parser and its tree - walked through exported fields - must equal the tree of an independent precedence-climbing parser driven by the documented ladder. (b) Every expression tree of depth <=2 over every node form, a depth-3 family, all operator-level triples in all five shapes and every statement skeleton are written with minimal and full parentheses and must parse back to the same tree. (c) Ladder-conform parentheses never change what operator triples print.',
+   'grammar extraction from grammer.txt with the amendments the property lists; ladder parser in internal/model; bounds on length/depth'),
+ 'C08': (MC, 'viable-prefix search: Earley recogniser over the documented grammar drives exhaustive token-sequence exploration of the real front end',
+   'From every prefix that the amended grammar says is viable, every symbol of the token alphabet is appended (three alphabets, length bounds); every viable prefix and every dead one-token extension is rendered on one line and one token per line and run through the real lexer+parser: accepted iff derivable, rejected texts flag an error with line numbers inside the text and the first diagnostic on the line of the first dead token; rejected texts appended to a print statement run nothing and exit 65 (through main). Character-level texts, deep nesting to 10^3/10^4, the 255-parameter limit and the reserved-name set are enumerated as separate families.',
+   'Earley recogniser and grammar amendments (internal/model/grammar.go); texts with a trailing comma in an object literal or a ধরি declaration spanning a line break are out of domain and skipped (counted)'),
  'C02': (EX, 'complete operator x operand-pair matrix against the reference evaluator',
    'Every unary/binary operator is applied to every ordered pair of a 49-value operand alphabet (all runtime kinds, IEEE boundary magnitudes, integer-typed results), equality laws are checked on every pair of bound values, and every depth-2 composition over a sub-alphabet is run; each program is executed on the real interpreter (through its own main package) and judged by an independent evaluator. Exhaustive over the stated finite alphabets; values outside them (random doubles) are not covered.',
    'reference evaluator (internal/model) using Go float64 arithmetic, math.Mod and math.Pow; overlay instrumentation; string+boolean and numeric-looking strings are unspecified and skipped'),
